@@ -35,6 +35,7 @@ def mutate(rnd, s, alpha):
 NAMES = ['div', 'p', 'span', 'a', 'ul', 'li', 'em', 'img', 'br', 'input', 'label', 'table', 'tr', 'td', 'select', 'html', 'body', 'x', 'b',
          'textarea', 'link:css', 'meta:vp', '!', 'cc:ie', 'c', 'xsl:variable', 'vare', 'tm', 'choose', 'ri:a', 'btn', 'form:post', 'h1',
          'section', 'strong', 'i', 'ol', 'tbody', 'optgroup', 'nav', 'header', 'bq', 'pic', 'video', 'map', 'colgroup', 'object', 'audio']
+LOREM = ['lorem', 'lorem5', 'lorem5-3', 'lorem10-2', 'lorem-0', 'lorem3-8', 'loremru4', 'lipsum', 'Lorem2', 'lorem-']
 ATTRS = ['[t=v]', '[t="a b"]', '[!u]', '[w.]', '[checked]', '[for]', '[id]', '[select=x name=y]', '[class=z]', '[t={e}]', '[k=${1:q}]',
          "[t='s']", '[disabled.]', '[a=1 a=2]', '[!v=x]', '[title]', '[data-n=$]', "[x='']", '[href=http://x.y]', '[t=v u="w"]']
 TEXTS = ['{tx}', '{a $ b}', '{<div>x</div>}', '{l1\nl2}', '{${1} z}', '{$#}', '{a{b}c}', '{\\{x}', '{a>b+c}', '{ $$@3 }', '{item $}', '{*}', '{ x }']
@@ -47,8 +48,10 @@ def rand_abbr(rnd, budget, depth, names=NAMES, attrs=ATTRS, texts=TEXTS):
         if rnd.random() < .1:
             parts.append(rnd.choice(['{txt}', '{a ${1} b}', '{l1\nl2}', '{${2:x}}'])); continue
         s = rnd.choice(names) if rnd.random() < .85 else ''
+        if rnd.random() < .03: s = rnd.choice(LOREM)
         if not s or rnd.random() < .3: s += '.c%d' % rnd.randint(0, 2)
         if rnd.random() < .15: s += '#i'
+        if rnd.random() < .08: s += rnd.choice(['$', '$$@3', '$@-', '$@^', '$@^^', '$@^^^', '$$@^^^^-2', '$@-0'])
         if rnd.random() < .1: s += '..m'
         if rnd.random() < .25: s += rnd.choice(attrs)
         if rnd.random() < .25: s += rnd.choice(texts)
